@@ -59,11 +59,20 @@ struct Evt {
     input: Ev<[f32; 3]>,
     set_cmd: Option<Command>,
     cond: Option<bool>,
+    /// index into UNITS of the unit carried by a present Quantity payload (changes only right after an event that
+    /// the stream documents as erasing its history; streams with a fixed input dimension ignore it)
+    unit: u8,
 }
+const UNITS: [Unit; 4] = [MILLIMETER, MILLIMETER_PER_SECOND, DIMENSIONLESS, SECOND];
 trait Sut {
     /// apply the event: optional set(), put the input outcome in place, update(); returns update result
     fn step(&mut self, e: &Evt) -> Result<(), i32>;
     fn get(&self) -> Obs;
+    /// put another outcome in place at the inputs WITHOUT calling update (the next step overwrites it)
+    fn perturb(&mut self, rng: &mut Rng);
+}
+fn perturb_src<T: Clone + 'static>(src: &Src<T>, rng: &mut Rng, v: T) {
+    match rng.below(4) { 0 => src.none(), 1 => src.err(rng.err_code()), _ => src.some(rng.stamp(), v) }
 }
 #[derive(Clone, Debug)]
 struct Params {
@@ -102,7 +111,7 @@ macro_rules! sut {
             fn step(&mut self, e: &Evt) -> Result<(), i32> {
                 let conv = $conv;
                 match &e.input {
-                    Ev::Some(t, v) => self.src.some(*t, conv(*v)),
+                    Ev::Some(t, v) => self.src.some(*t, conv(*v, UNITS[e.unit as usize])),
                     Ev::None => self.src.none(),
                     Ev::Err(c) => self.src.err(*c),
                 }
@@ -111,23 +120,30 @@ macro_rules! sut {
             fn get(&self) -> Obs {
                 $obs(self.s.get())
             }
+            fn perturb(&mut self, rng: &mut Rng) {
+                let conv = $conv;
+                let cur = match &self.src.0.borrow().out { Ok(Some(d)) => Some(d.value.clone()), _ => None };
+                // same payload type and unit as the value in place (or a default one), other value / stamp / category
+                let v = match cur { Some(c) if rng.chance(0.5) => c, _ => conv([rng.moderate(1e4), 0.0, 0.0], MILLIMETER) };
+                perturb_src(&self.src, rng, v);
+            }
         }
     };
 }
 type DF = dyn Getter<f32, E>;
 type DQ = dyn Getter<Quantity, E>;
-sut!(SPid, f32, PIDControllerStream<DF, E>, |v: [f32; 3]| v[0], obs_f);
-sut!(SEwmaF, f32, EWMAStream<f32, DF, E>, |v: [f32; 3]| v[0], obs_f);
-sut!(SEwmaQ, Quantity, EWMAStream<Quantity, DQ, E>, |v: [f32; 3]| Quantity::new(v[0], MILLIMETER), obs_q);
-sut!(SMaF, f32, MovingAverageStream<f32, DF, E>, |v: [f32; 3]| v[0], obs_f);
-sut!(SMaQ, Quantity, MovingAverageStream<Quantity, DQ, E>, |v: [f32; 3]| Quantity::new(v[0], MILLIMETER), obs_q);
-sut!(SInt, Quantity, IntegralStream<DQ, E>, |v: [f32; 3]| Quantity::new(v[0], MILLIMETER), obs_q);
-sut!(SDrv, Quantity, DerivativeStream<DQ, E>, |v: [f32; 3]| Quantity::new(v[0], MILLIMETER), obs_q);
-sut!(SA2S, Quantity, AccelerationToState<DQ, E>, |v: [f32; 3]| Quantity::new(v[0], MILLIMETER_PER_SECOND_SQUARED), obs_s);
-sut!(SV2S, Quantity, VelocityToState<DQ, E>, |v: [f32; 3]| Quantity::new(v[0], MILLIMETER_PER_SECOND), obs_s);
-sut!(SP2S, Quantity, PositionToState<DQ, E>, |v: [f32; 3]| Quantity::new(v[0], MILLIMETER), obs_s);
-sut!(SF2Q, f32, FloatToQuantity<Cell<f32>, E>, |v: [f32; 3]| v[0], obs_q);
-sut!(SQ2F, Quantity, QuantityToFloat<DQ, E>, |v: [f32; 3]| Quantity::new(v[0], MILLIMETER), obs_f);
+sut!(SPid, f32, PIDControllerStream<DF, E>, |v: [f32; 3], _u: Unit| v[0], obs_f);
+sut!(SEwmaF, f32, EWMAStream<f32, DF, E>, |v: [f32; 3], _u: Unit| v[0], obs_f);
+sut!(SEwmaQ, Quantity, EWMAStream<Quantity, DQ, E>, |v: [f32; 3], u: Unit| Quantity::new(v[0], u), obs_q);
+sut!(SMaF, f32, MovingAverageStream<f32, DF, E>, |v: [f32; 3], _u: Unit| v[0], obs_f);
+sut!(SMaQ, Quantity, MovingAverageStream<Quantity, DQ, E>, |v: [f32; 3], u: Unit| Quantity::new(v[0], u), obs_q);
+sut!(SInt, Quantity, IntegralStream<DQ, E>, |v: [f32; 3], u: Unit| Quantity::new(v[0], u), obs_q);
+sut!(SDrv, Quantity, DerivativeStream<DQ, E>, |v: [f32; 3], u: Unit| Quantity::new(v[0], u), obs_q);
+sut!(SA2S, Quantity, AccelerationToState<DQ, E>, |v: [f32; 3], _u: Unit| Quantity::new(v[0], MILLIMETER_PER_SECOND_SQUARED), obs_s);
+sut!(SV2S, Quantity, VelocityToState<DQ, E>, |v: [f32; 3], _u: Unit| Quantity::new(v[0], MILLIMETER_PER_SECOND), obs_s);
+sut!(SP2S, Quantity, PositionToState<DQ, E>, |v: [f32; 3], _u: Unit| Quantity::new(v[0], MILLIMETER), obs_s);
+sut!(SF2Q, f32, FloatToQuantity<Cell<f32>, E>, |v: [f32; 3], _u: Unit| v[0], obs_q);
+sut!(SQ2F, Quantity, QuantityToFloat<DQ, E>, |v: [f32; 3], u: Unit| Quantity::new(v[0], u), obs_f);
 struct SCmdPid {
     src: Src<State>,
     s: CommandPID<dyn Getter<State, E>, E>,
@@ -146,6 +162,10 @@ impl Sut for SCmdPid {
     }
     fn get(&self) -> Obs {
         obs_f(self.s.get())
+    }
+    fn perturb(&mut self, rng: &mut Rng) {
+        let v = State::new_raw(rng.moderate(1e4), rng.moderate(1e3), rng.moderate(1e2));
+        perturb_src(&self.src, rng, v);
     }
 }
 struct SFreeze {
@@ -168,6 +188,10 @@ impl Sut for SFreeze {
     }
     fn get(&self) -> Obs {
         obs_f(self.s.get())
+    }
+    fn perturb(&mut self, rng: &mut Rng) {
+        if rng.chance(0.7) { let v = rng.moderate(1e4); perturb_src(&self.src, rng, v); }
+        if rng.chance(0.7) { match rng.below(3) { 0 => self.cond.none(), 1 => self.cond.some(0, false), _ => self.cond.some(0, true) } }
     }
 }
 fn make(p: &Params, cmd: Command) -> Box<dyn Sut> {
@@ -227,7 +251,16 @@ fn gen_history(rng: &mut Rng, p: &Params, case: u64) -> Vec<Evt> {
     let const_dt = if rng.chance(0.3) { Some(rng.step_ns(1_000, 3_600_000_000_000)) } else { None };
     let mut out = Vec::with_capacity(kinds.len());
     let mut cur_cmd = p.cmd;
+    // unit of the Quantity payload: may change only when the previous event erased the stream's history (then a
+    // newly constructed stream fed the rest would accept it, so the long-lived one has to as well)
+    let (none_r, err_r, all_r) = reset_rule(p.kind);
+    let unit_free = matches!(p.kind, 3 | 5 | 6 | 7 | 12);
+    let mut unit = if unit_free { rng.below(4) as u8 } else { 0 };
+    let mut prev_kind: Option<u8> = None;
     for k in kinds {
+        let erased = all_r || match prev_kind { Some(1) => none_r, Some(2) | Some(3) => err_r, _ => false };
+        if unit_free && erased && rng.chance(0.4) { unit = rng.below(4) as u8; }
+        prev_kind = Some(k);
         let mut dt = const_dt.unwrap_or_else(|| rng.step_ns(1_000, 3_600_000_000_000));
         if nondecreasing_ok && rng.chance(0.15) { dt = 0; }
         t += dt;
@@ -247,7 +280,7 @@ fn gen_history(rng: &mut Rng, p: &Params, case: u64) -> Vec<Evt> {
             Some(c)
         } else { None };
         let cond = if p.kind == 13 { match rng.below(5) { 0 | 1 => Some(false), 2 | 3 => Some(true), _ => None } } else { None };
-        out.push(Evt { input, set_cmd, cond });
+        out.push(Evt { input, set_cmd, cond, unit });
     }
     out
 }
@@ -281,6 +314,13 @@ fn run_all(p: &Params, cmd0: Command, h: &[Evt], extra_gets: Option<&mut Rng>) -
         let g2 = s.get();
         let g3 = s.get();
         if g1 != g2 || g2 != g3 { pure = false; }
+        if let Some(r) = rng.as_mut() {
+            // what the inputs return AFTER the update must not show through get() before the next update
+            if r.chance(0.5) {
+                s.perturb(r);
+                if catch(|| s.get()).ok() != Some(g1.clone()) { pure = false; }
+            }
+        }
         outs.push(g1);
     }
     (outs, upds, pure)
@@ -301,6 +341,7 @@ fn main() {
                 cmd: gen_cmd(&mut rng),
             };
             let h = gen_history(&mut rng, &p, case);
+            if h.windows(2).any(|w| w[0].unit != w[1].unit && matches!(w[1].input, Ev::Some(..))) { rep.tally(&format!("unit_changes_after_reset/{}", name)); }
             let (a, upd, pure) = run_all(&p, p.cmd, &h, None);
             rep.eval();
             let mut bigrams = 0u32;
@@ -317,8 +358,12 @@ fn main() {
                 rep.violation(&format!("C05/get-not-pure/{}", name), sub, case, format!("three successive get() differ; params={:?} history={:?}", p, h));
             }
             let mut r2 = Rng::new(args.seed, 900 + kind as u64, case);
-            let (d, _, _) = run_all(&p, p.cmd, &h, Some(&mut r2));
+            let (d, _, live_ok) = run_all(&p, p.cmd, &h, Some(&mut r2));
             rep.eval();
+            rep.tally("input_changed_between_update_and_get_runs");
+            if !live_ok {
+                rep.violation(&format!("C05/get-reads-input-live/{}", name), sub, case, format!("get() changed after the input's outcome was changed WITHOUT an update; params={:?} history={:?}", p, h));
+            }
             if d != a {
                 rep.violation(&format!("C05/get-affects-later/{}", name), sub, case, format!("extra get() calls changed outputs; params={:?} history={:?} a={:?} d={:?}", p, h, a, d));
             }
@@ -431,6 +476,7 @@ fn main() {
                 if e { rep.floor(&format!("fresh_comparisons/{}/err", name), 20); }
             }
             rep.floor(&format!("reset_then_3_present/{}", name), 10);
+            if matches!(kind, 3 | 5 | 6 | 7 | 12) { rep.floor(&format!("unit_changes_after_reset/{}", name), 10); }
         }
     }
     rep.floor("fresh_comparisons/CommandPID/set-different", 10);
